@@ -13,6 +13,7 @@ import (
 	"path/filepath"
 	"regexp"
 	"strings"
+	"time"
 
 	"verifharness/compa"
 	"verifharness/vh"
@@ -23,6 +24,7 @@ var env *compa.Env
 type built struct {
 	caseLine string
 	src      []byte
+	fs       compa.Files
 }
 
 var toBuild []built
@@ -63,6 +65,11 @@ func runCase(o *vh.Out, fs compa.Files, origin string, wantBuild bool) {
 		o.Count("errclass_" + compa.ErrClass(c.Err.Error()))
 		o.Case(caseLine, "ERR", true)
 		return
+	case c.WPanic != "":
+		o.Count("compile_ok")
+		o.Oracle("success-write-panics:"+compa.KeyOnly(c.WPanic), caseLine, origin+": "+c.WPanic)
+		o.Case(caseLine, "OK-WRITEPANIC", true)
+		return
 	case c.WriteErr != nil:
 		// success reported but the output cannot even be written
 		o.Count("compile_ok")
@@ -72,21 +79,23 @@ func runCase(o *vh.Out, fs compa.Files, origin string, wantBuild bool) {
 	}
 	o.Count("compile_ok")
 	o.Count("ok_from_" + strings.SplitN(origin, ":", 2)[0])
-	class, msg := env.GoCheck(c.Src)
+	class, msg := env.GoCheck(c.Src, fs)
 	if class != "" {
 		o.Oracle("success-bad-go:"+class, caseLine, origin+": "+msg)
 		o.Case(caseLine, "OK-BADGO "+class, true)
 		return
 	}
 	if wantBuild {
-		toBuild = append(toBuild, built{caseLine, c.Src})
+		toBuild = append(toBuild, built{caseLine, c.Src, fs})
 	}
 	o.Case(caseLine, "OK", true)
 }
 
-var buildErrRe = regexp.MustCompile(`(?m)^(?:\./)?p(\d+)/main\.go:\d+:\d+: (.*)$`)
+var buildErrRe = regexp.MustCompile(`(?m)^(?:\./)?p\d+/[^:\s]+:\d+:\d+: (.*)$`)
 
-// buildAll builds every queued output with one `go build ./...` (no program is run).
+// buildAll compiles every queued output with the Go toolchain (gc), all in one
+// `go list -e -export ./...` (compile only: nothing is linked or run; link-time needs of
+// llgo/C demo programs are outside the property).
 func buildAll(o *vh.Out, dir string) {
 	if len(toBuild) == 0 {
 		return
@@ -95,33 +104,42 @@ func buildAll(o *vh.Out, dir string) {
 	for i, b := range toBuild {
 		d := filepath.Join(dir, fmt.Sprintf("p%05d", i))
 		os.MkdirAll(d, 0o755)
-		os.WriteFile(filepath.Join(d, "main.go"), b.src, 0o644)
+		os.WriteFile(filepath.Join(d, "xgo_autogen.go"), b.src, 0o644)
+		for _, n := range b.fs.Names() {
+			if strings.HasSuffix(n, ".go") && !strings.HasSuffix(n, "_test.go") {
+				os.WriteFile(filepath.Join(d, n), []byte(b.fs[n]), 0o644)
+			}
+		}
 	}
-	cmd := exec.Command("go", "build", "-gcflags=-e", "./...")
+	cmd := exec.Command("go", "list", "-e", "-export", "-f", "@@{{.ImportPath}}|{{if .Error}}{{.Error.Err}}{{end}}", "./...")
 	cmd.Dir = dir
 	cmd.Env = append(os.Environ(), "GOFLAGS=-mod=mod", "GOPROXY=off", "GOSUMDB=off", "GOTOOLCHAIN=local", "CGO_ENABLED=0")
-	var out bytes.Buffer
-	cmd.Stdout, cmd.Stderr = &out, &out
+	var out, serr bytes.Buffer
+	cmd.Stdout, cmd.Stderr = &out, &serr
 	err := cmd.Run()
 	o.Stats["go_build_packages"] += len(toBuild)
-	if err == nil {
-		return
-	}
-	seen := map[int]bool{}
-	for _, m := range buildErrRe.FindAllStringSubmatch(out.String(), -1) {
-		var i int
-		fmt.Sscan(strings.TrimLeft(m[1], "0")+"", &i)
-		if m[1] == "00000" {
-			i = 0
-		}
-		if i < 0 || i >= len(toBuild) || seen[i] {
+	n := 0
+	for _, rec := range strings.Split(out.String(), "@@") {
+		k := strings.IndexByte(rec, '|')
+		if k < 0 || !strings.HasPrefix(rec, "verifprog/p") {
 			continue
 		}
-		seen[i] = true
-		o.Oracle("success-go-build-fails:"+compa.ErrClass(m[2]), toBuild[i].caseLine, m[2])
+		n++
+		var i int
+		fmt.Sscanf(rec[len("verifprog/p"):k], "%d", &i)
+		msg := strings.TrimSpace(rec[k+1:])
+		if msg == "" || i < 0 || i >= len(toBuild) {
+			continue
+		}
+		first := msg
+		if m := buildErrRe.FindStringSubmatch(msg); m != nil {
+			first = m[1]
+		}
+		o.Oracle("success-go-build-fails:"+compa.ErrClass(first), toBuild[i].caseLine, firstN(msg, 300))
 	}
-	if len(seen) == 0 {
-		o.Oracle("success-go-build-fails:unattributed", "c06\t-", firstN(out.String(), 600))
+	if n != len(toBuild) {
+		fmt.Fprintf(os.Stderr, "go list -export: %v: %d of %d packages listed\n%s\n", err, n, len(toBuild), firstN(serr.String(), 2000))
+		os.Exit(3)
 	}
 }
 
@@ -137,7 +155,15 @@ func main() {
 	o := vh.NewOut(f.Out)
 	defer o.Close()
 	var err error
-	env, err = compa.NewEnv(filepath.Join(f.Out, "env"))
+	t0 := time.Now()
+	corpus := compa.LoadCorpus(true)
+	env, err = compa.NewEnv(filepath.Join(f.Out, "env"), append(compa.ImportPaths(corpus), "nosuch/pkg")...)
+	tick := func(what string) {
+		if os.Getenv("COMPA_DEBUG") != "" {
+			fmt.Fprintf(os.Stderr, "[%6.1fs] %s\n", time.Since(t0).Seconds(), what)
+		}
+	}
+	tick("env ready")
 	if err != nil {
 		fmt.Fprintln(os.Stderr, "env:", err)
 		os.Exit(2)
@@ -167,7 +193,6 @@ func main() {
 	if os.Getenv("COMPA_DEBUG") == "pieces" {
 		return
 	}
-	corpus := compa.LoadCorpus(true)
 	o.Stats["corpus_items"] = len(corpus)
 	nearMiss := []string{"ident-swap", "ident-undefined", "type-swap", "lit-swap", "drop-arg", "add-arg", "drop-line", "dup-line",
 		"drop-return", "define-assign", "lhs-count", "unused-var", "unused-import", "op-swap", "dup-decl"}
@@ -177,6 +202,7 @@ func main() {
 			runCase(o, it.Files, "corpus:"+it.Origin, wantBuild())
 		}
 	}
+	tick("corpus done")
 	// 2. generated programs and their near-miss mutants; mutated corpus
 	for i := 0; i < f.N; i++ {
 		rr := r.Fork(i)
@@ -206,6 +232,8 @@ func main() {
 			runCase(o, mf, "corpusmut:"+it.Origin+"/"+ks, wantBuild())
 		}
 	}
+	tick("cases done")
 	buildAll(o, filepath.Join(f.Out, "build"))
+	tick("build done")
 	o.Stats["golist_slow_path"] = env.NList
 }
